@@ -1736,7 +1736,8 @@ void Validator::ValidatorImpl::validateAndCleanCnNode(const XmlNodePtr &node, co
 
 void Validator::ValidatorImpl::validateAndCleanCiNode(const XmlNodePtr &node, const ComponentPtr &component, const NameList &variableNames)
 {
-    XmlNodePtr childNode = node->firstChild();
+    // Note: the identifier may be preceded by a comment.
+    XmlNodePtr childNode = (nonCommentChildCount(node) > 0) ? nonCommentChildNode(node, 0) : nullptr;
     std::string textInNode = text(childNode);
     if (!textInNode.empty()) {
         // Check whether we can find this text as a variable name in this component.
